@@ -23,7 +23,9 @@ Definition kind_matches (f : decfact) : bool :=
   | KContBody a => dclass_eqb (df_class f) CContainerBody && Bool.eqb (df_accerr f) a
   | KCont => dclass_eqb (df_class f) CContainerTwin && negb (df_accerr f)
   | KLeaf => negb (dclass_eqb (df_class f) CContainerBody)
-  end.
+  end &&
+  (if dclass_eqb (df_class f) CPureTwin || dclass_eqb (df_class f) CRawBody
+   then match std_kind (df_key f) with KLeaf => true | _ => false end else true).
 Lemma kinds_match : forallb kind_matches c03_decoder_facts = true.
 Proof. vm_compute. reflexivity. Qed.
 
@@ -35,6 +37,7 @@ Theorem all_pairs_classified :
                         \/ In (df_r f) c03_delegating_nonrelative_proved \/ In (df_r f) c03_delegating_nonrelative_explored
        | CContainerTwin => df_accerr f = false \/ In (df_r f) c03_twin_accerr_explored
        | CContainerBody => std_kind k = KContBody (df_accerr f)
+       | CPureTwin | CRawBody => std_kind k = KLeaf
        | CSeparate => In (df_r f) c03_separate_proved \/ In (df_r f) c03_separate_explored
        end).
 Proof.
@@ -48,8 +51,13 @@ Proof.
   - apply orb_prop in Hok. destruct Hok as [Hok|Hok]; [|right; right; apply SM; exact Hok].
     apply orb_prop in Hok. destruct Hok as [Hok|Hok]; [left; exact Hok|right; left; apply SM; exact Hok].
   - apply orb_prop in Hok. destruct Hok as [Hok|Hok]; [left; destruct (df_accerr f); [discriminate|reflexivity]|right; apply SM; exact Hok].
-  - unfold kind_matches in Hkm. rewrite Hf in Hkm. rewrite Ec in Hkm. destruct (std_kind k) as [| |a]; cbn in Hkm; try discriminate.
-    apply Bool.eqb_prop in Hkm. rewrite Hkm. reflexivity.
+  - unfold kind_matches in Hkm. rewrite Hf in Hkm. rewrite Ec in Hkm. apply andb_prop in Hkm. destruct Hkm as [Hk1 _].
+    destruct (std_kind k) as [| |a]; cbn in Hk1; try discriminate.
+    apply Bool.eqb_prop in Hk1. rewrite Hk1. reflexivity.
+  - unfold kind_matches in Hkm. rewrite Hf in Hkm. rewrite Ec in Hkm. apply andb_prop in Hkm. destruct Hkm as [_ Hk2].
+    cbn in Hk2. destruct (std_kind k) as [| |a]; try discriminate. reflexivity.
+  - unfold kind_matches in Hkm. rewrite Hf in Hkm. rewrite Ec in Hkm. apply andb_prop in Hkm. destruct Hkm as [_ Hk2].
+    cbn in Hk2. destruct (std_kind k) as [| |a]; try discriminate. reflexivity.
   - apply orb_prop in Hok. destruct Hok as [Hok|Hok]; [left|right]; apply SM; exact Hok.
 Qed.
 
